@@ -335,3 +335,65 @@ pub fn tls_teardown_model(which: usize) {
     a.fetch_add(1, SeqCst);
     t.join().unwrap();
 }
+
+// ------------------------------------------------------------------------------------------
+// hand-written models for C17: nesting. A lazy static whose initialiser (with a scheduling point)
+// reads another lazy static, raced by a second thread; a thread-local whose initialiser reads
+// another thread-local. Each is initialised exactly once per execution / per thread.
+// ------------------------------------------------------------------------------------------
+
+pub static OUTER_INITS: std::sync::atomic::AtomicUsize = std::sync::atomic::AtomicUsize::new(0);
+pub static INNER_INITS: std::sync::atomic::AtomicUsize = std::sync::atomic::AtomicUsize::new(0);
+pub static NEST_A_INITS: std::sync::atomic::AtomicUsize = std::sync::atomic::AtomicUsize::new(0);
+pub static NEST_B_INITS: std::sync::atomic::AtomicUsize = std::sync::atomic::AtomicUsize::new(0);
+
+loom::lazy_static! {
+    static ref LZ_INNER: u64 = {
+        INNER_INITS.fetch_add(1, std::sync::atomic::Ordering::SeqCst);
+        loom::thread::yield_now();
+        5
+    };
+    static ref LZ_OUTER: u64 = {
+        OUTER_INITS.fetch_add(1, std::sync::atomic::Ordering::SeqCst);
+        loom::thread::yield_now();
+        let v = *LZ_INNER + 1;
+        loom::thread::yield_now();
+        v
+    };
+}
+
+loom::thread_local! {
+    static TLS_NEST_B: u64 = { NEST_B_INITS.fetch_add(1, std::sync::atomic::Ordering::SeqCst); 2 };
+    static TLS_NEST_A: u64 = {
+        NEST_A_INITS.fetch_add(1, std::sync::atomic::Ordering::SeqCst);
+        TLS_NEST_B.with(|b| *b + 1)
+    };
+}
+
+/// `which` 3: two or three threads read OUTER (and one of them INNER directly); 4: every thread
+/// reads A (whose initialiser reads B), then B, then A again, also nested inside `with`.
+/// Returns the number of threads that ran.
+pub fn nesting_model(which: usize) -> usize {
+    if which == 3 {
+        let t1 = loom::thread::spawn(|| assert_eq!(*LZ_OUTER, 6));
+        let t2 = loom::thread::spawn(|| {
+            assert_eq!(*LZ_INNER, 5);
+            assert_eq!(*LZ_OUTER, 6);
+        });
+        assert_eq!(*LZ_OUTER, 6);
+        t1.join().unwrap();
+        t2.join().unwrap();
+        3
+    } else {
+        let body = || {
+            assert_eq!(TLS_NEST_A.with(|a| *a), 3);
+            assert_eq!(TLS_NEST_B.with(|b| *b), 2);
+            assert_eq!(TLS_NEST_A.with(|a| TLS_NEST_B.with(|b| *a + *b)), 5);
+            assert_eq!(TLS_NEST_A.with(|a| TLS_NEST_A.with(|a2| *a + *a2)), 6);
+        };
+        let t1 = loom::thread::spawn(body);
+        body();
+        t1.join().unwrap();
+        2
+    }
+}
